@@ -98,7 +98,7 @@ func VerifH_C05_amplify_string_rep() {
 	fn := vhLibFn(run, "string", "rep")
 	cm, mm := uint64(16), uint64(24)
 	if verifTier() == 1 {
-		cm, mm = 40, 64
+		cm, mm = 24, 40
 	}
 	cpu, mem := run.smallLimits(cm, mm, fn, vhStr(""), vhInt(0))
 	n := nondetInt64("N")
@@ -141,10 +141,12 @@ func VerifH_C05_amplify_ranges() {
 		fn = vhLibFn(run, "table", "unpack")
 		args, neutral = []rt.Value{tv, vhInt(i), vhInt(j)}, []rt.Value{tv, one, one}
 	case 2:
+		// the end of the range is symbolic; the destination is chosen among a
+		// few values, and so is the start in the quick tier (three symbolic
+		// positions make every table access a three-way fork)
+		k = int64(1 + 2*verifChoose("Kc", 2))
 		if verifTier() == 0 {
-			// quick tier: the end of the range is symbolic, start and destination
-			// are chosen among a few values (all three symbolic in the thorough tier)
-			i, k = int64(1+verifChoose("Ic", 2)), int64(1+2*verifChoose("Kc", 2))
+			i = int64(1 + verifChoose("Ic", 2))
 		}
 		fn = vhLibFn(run, "table", "move")
 		args, neutral = []rt.Value{tv, vhInt(i), vhInt(j), vhInt(k)}, []rt.Value{tv, one, one, one}
